@@ -52,7 +52,7 @@ type Op struct {
 	Auth int    `json:"auth"` // add: authorising slot
 	AKey int    `json:"akey"` // add: private key used for the authorising slot; -1 = the right one
 	Bad  int    `json:"bad"`  // init: 0 valid, 1 wrong key length, 2 empty slot id, 3 empty public key
-	Corr int    `json:"corr"` // corrupt: 0 blob byte, 1 swap blobs, 2 drop slot, 3 add slot (copy), 4 add slot (outsider), 5 hmac byte, 6 version, 7 algorithm
+	Corr int    `json:"corr"` // corrupt: 0 blob byte, 1 swap blobs, 2 drop slot, 3 add slot (copy), 4 add slot (outsider), 5 hmac byte, 6 version, 7 algorithm, 8 hmac removed, 9 hmac truncated, 10 hmac extended
 	Arg  int    `json:"arg"`
 }
 
@@ -76,7 +76,7 @@ func Gen(t *rapid.T) Plan {
 			Auth: rapid.SampledFrom([]int{-1, -1, -1, 0, 1, 2, 3}).Draw(t, "auth"),
 			AKey: rapid.SampledFrom([]int{-1, -1, -1, 0, 1, 2, 3, 4, 5}).Draw(t, "akey"),
 			Bad:  rapid.SampledFrom([]int{0, 0, 1, 2}).Draw(t, "bad"),
-			Corr: rapid.IntRange(0, 7).Draw(t, "corr"),
+			Corr: rapid.IntRange(0, 10).Draw(t, "corr"),
 			Arg:  rapid.IntRange(0, 100000).Draw(t, "arg"),
 		})
 	}
@@ -323,6 +323,12 @@ func Run(p Plan) (v hk.Verdict) {
 				st.KeySlots["zz-outsider"] = &key_storage.KeySlot{Algorithm: key_storage.Algorithm_PGP_AES_GCM_256, EncryptedKey: []byte(enc)}
 			case 5:
 				st.KeysHmacHash[op.Arg%len(st.KeysHmacHash)] ^= byte(1 + op.Arg%255)
+			case 8:
+				st.KeysHmacHash = nil
+			case 9:
+				st.KeysHmacHash = st.KeysHmacHash[:op.Arg%len(st.KeysHmacHash)]
+			case 10:
+				st.KeysHmacHash = append(append([]byte(nil), st.KeysHmacHash...), byte(op.Arg))
 			case 6:
 				st.StorageVersion = key_storage.StorageVersion(2 + op.Arg%3)
 			case 7:
